@@ -67,7 +67,7 @@ macro_rules! float_impl {
     ($t:ty) => {
         library! {
             impl $t {
-                /// Returns the smallest integer greater than or equal to self.
+                /// Returns the largest integer less than or equal to self.
                 fn floor(self) -> Self {
                     self.floor()
                 }
